@@ -60,6 +60,7 @@ def run():
     for f in ck.findings:
         for rp in L.replays_of(f):
             cases.append({"src": rp["src"], "fam": "replay", "tags": rp.get("tags", []), "only": rp.get("target")})
+    cases += CG.G.repaired_cases()          # programs whose defect was repaired in /repo: no classifier knows them
     for fam in CG.G.FAMILIES:
         for _ in range(ck.n(6, 40)):
             cases.append(g.case(fam))
